@@ -45,59 +45,114 @@ def _check(prog, rep):
     UF = ("call", "crate::refill::unfill", (FT,))
     TEXT, OLD = ("field", UF, "0"), ("field", UF, "1")
     fb = [b for b, t, c in body.calls() if c.name == "crate::fill::fill"]
-    if len(fb) != 1:
-        raise AnchorMissing("refill: expected one call to fill")
-    args = [prog.simp(a, body) for a in s.call_args(fb[0])]
+    if not fb:
+        raise AnchorMissing("refill: no call to fill")
     r1 = Rule(rep, "C16.R1", KEY, site=site_of_block(body, fb[0]))
     r2 = Rule(rep, "C16.R2", KEY, site=site_of_block(body, fb[0]))
     r3 = Rule(rep, "C16.R3", KEY, site=body.span)
-    # options: nested updates over NEW
-    o = args[1]
-    ups = {}
-    while o[0] == "update":
-        path = o[2]
-        if len(path) == 1 and isinstance(path[0], tuple) and path[0][0] == "f":
-            ups[path[0][2]] = o[3]
-        else:
-            ups[str(path)] = o[3]
-        o = o[1]
-    r1.check(o == NEW, "base-options", "fill receives the caller's new options", D(o), "fill's options are based on %s, not on the new options" % D(o))
-    want = {"initial_indent": ("field", OLD, "initial_indent"), "subsequent_indent": ("field", OLD, "subsequent_indent")}
-    r1.check(ups == want, "indents", "exactly the two indents are replaced by the detected ones (same-named fields)",
-             str({k: D(v) for k, v in ups.items()}),
-             "the options given to fill replace %s; expected initial_indent := detected.initial_indent and subsequent_indent := "
-             "detected.subsequent_indent only" % {k: D(v) for k, v in ups.items()})
-    strip = ("call", "str::strip_suffix", (TEXT, ("call", "crate::line_ending::LineEnding::as_str", (("field", OLD, "line_ending"),))))
-    wantt = ("call", "Option::unwrap_or", (strip, TEXT))
-    r2.check(args[0] == wantt, "text", "fill receives the unfilled text with the detected ending stripped (or unchanged)", D(args[0]),
-             "fill receives %s; expected text.strip_suffix(detected.line_ending.as_str()).unwrap_or(&text)" % D(args[0]))
-    res = models.returned_string_root(prog, body)
-    seen = set()
+    e_old = ("call", "crate::line_ending::LineEnding::as_str", (("field", OLD, "line_ending"),))
     e_new = ("call", "crate::line_ending::LineEnding::as_str", (("field", NEW, "line_ending"),))
+    strip = ("call", "str::strip_suffix", (TEXT, e_old))
+    wantt = ("call", "Option::unwrap_or", (strip, TEXT))
+    payload = prog.simp(("field", ("as", strip, "Some"), "0"), body)
+    want_opts = {"initial_indent": ("field", OLD, "initial_indent"), "subsequent_indent": ("field", OLD, "subsequent_indent")}
+    seen = set()
+    # path by path: one call to fill, with the stripped (or unchanged) text and the new options carrying the detected
+    # indents; the new ending is appended exactly when the old one was stripped
     for path in fn_paths(body):
         pv = PathView(prog, body, path)
         facts = pv.facts()
         if contradictory(facts):
             continue
-        evs = [(n, a[1]) for (_b, n, a, _r) in pv.events([res])]
+        calls = [b for b in path if b in fb]
+        site = site_of_block(body, calls[0]) if calls else body.span
+        if len(calls) != 1:
+            r1.check(False, "one-fill", "", "", "a path through refill calls fill %d times; expected exactly once" % len(calls), site=site)
+            continue
+        args = pv.call_args(calls[0])
         st = None
         for a, pol in facts:
             if a[0] == "b" and a[1] == ("call", "Option::is_some", (strip,)):
                 st = pol
+            if a[0] == "b" and a[1] == ("call", "Option::is_none", (strip,)):
+                st = not pol
+            if a[0] == "b" and a[1] == ("call", "str::ends_with", (TEXT, e_old)):
+                st = pol          # strip_suffix(..) is Some exactly when the text ends with the old ending
             if a[0] == "variant" and a[1] == strip and pol:
                 st = (a[2] == "Some")
+        # options: nested updates over NEW
+        o = args[1]
+        ups = {}
+        while o[0] == "update":
+            pth = o[2]
+            if len(pth) == 1 and isinstance(pth[0], tuple) and pth[0][0] == "f":
+                ups[pth[0][2]] = o[3]
+            else:
+                ups[str(pth)] = o[3]
+            o = o[1]
+        r1.check(o == NEW, "base-options", "fill receives the caller's new options", D(o),
+                 "fill's options are based on %s, not on the new options" % D(o), site=site)
+        r1.check(ups == want_opts, "indents", "exactly the two indents are replaced by the detected ones (same-named fields)",
+                 str({k: D(v) for k, v in ups.items()}),
+                 "the options given to fill replace %s; expected initial_indent := detected.initial_indent and subsequent_indent := "
+                 "detected.subsequent_indent only" % {k: D(v) for k, v in ups.items()}, site=site)
+        okt = args[0] == wantt or (st is True and args[0] == payload) or (st is False and args[0] == TEXT)
+        r2.check(okt, "text", "fill receives the unfilled text with the detected ending stripped (or unchanged)", D(args[0]),
+                 "fill receives %s; expected text.strip_suffix(detected.line_ending.as_str()).unwrap_or(&text)" % D(args[0]), site=site)
+        res = models.returned_string_root(prog, body) if _single_root(prog, body) else None
+        evs = [(n, a[1]) for (b_, n, a, _r) in pv.events(_result_roots(prog, body)) if path.index(b_) > path.index(calls[0])]
         if st is None:
-            r3.check(False, "branch", "", "", "refill does not branch on whether the detected ending was stripped")
+            r3.check(False, "branch", "", "", "refill does not branch on whether the detected ending was stripped", site=site)
             continue
         seen.add(st)
         exp = [("String::push_str", e_new)] if st else []
         r3.check(evs == exp, "tail:%s" % st, "the NEW line ending is appended iff an ending was stripped", str([(n, D(a)) for n, a in exp]),
                  "when the strip %s the result receives %s; expected %s" % ("succeeded" if st else "failed",
-                                                                           [(n, D(a)) for n, a in evs], [(n, D(a)) for n, a in exp]))
+                                                                           [(n, D(a)) for n, a in evs], [(n, D(a)) for n, a in exp]), site=site)
+        # what is returned is the result of that call (plus the appended ending)
+        ret = pv.value_before_term((0, ()), path[-1])
+        isfill = lambda v: v[0] == "call" and v[1] == "crate::fill::fill"
+        okret = isfill(ret)
+        if not okret and ret[0] in ("mut", "phi"):
+            pk = ret[3] if ret[0] == "mut" else ret[2]
+            if isinstance(pk, tuple) and pk and pk[0] != "opaque":
+                s_ = sym_of(body)
+                okret = isfill(prog.simp(pv.resolve(s_.val(pk, calls[0], "after")), body))
+        r3.check(okret, "result-is-fill", "the result is the string returned by fill", D(ret)[:80],
+                 "refill returns %s, which is not the string produced by fill" % D(ret)[:120], site=site)
     r3.check(seen == {True, False}, "cases", "both cases exist", str(seen), "refill lacks one of the stripped / not stripped cases", nontrivial=False)
-    init = prog.simp(s.val(res, fb[0], "after"), body)
-    r3.check(init[0] == "call" and init[1] == "crate::fill::fill", "result-is-fill", "the result starts as fill(..)", D(init)[:80],
-             "the returned string does not start as the result of fill")
+
+
+def _result_roots(prog, body):
+    """Places holding the string that is returned (one per return path shape)."""
+    s = sym_of(body)
+    roots = set()
+    work = [s.val((0, ()), r, "term") for r in body.cfg.returns]
+    seen = set()
+    while work:
+        v = work.pop()
+        if v in seen:
+            continue
+        seen.add(v)
+        if v[0] == "mut":
+            roots.add(v[3])
+        elif v[0] == "phi":
+            roots.add(v[2])
+            work.extend(s.phi_inputs(v).values())
+    # the local a fill(..) result is stored in before being moved to _0
+    for b, t, c in body.calls():
+        if c.name == "crate::fill::fill":
+            roots.add((t["dest"]["l"], ()))
+    roots.add((0, ()))
+    return sorted(roots)
+
+
+def _single_root(prog, body):
+    try:
+        models.returned_string_root(prog, body)
+        return True
+    except AnchorMissing:
+        return False
 
 
 def run(prog, rep):
